@@ -231,6 +231,27 @@ CHECKS = {
                     "client's own probe says the combination works."),
         level_note="Trusts miekg/dns Pack/Unpack as the wire.",
     ),
+    "C11": dict(
+        inpkg="internal/streams/dns", src=["inpkg_dnssim", "inpkg_c11"],
+        level="exploration",
+        technique="property-based testing (rapid) of the real client Handshake() against a real server over a generated family of simulated DNS path behaviours; termination + success-implies-exact-transfer oracle",
+        rule=("case = path behaviour: query-name case {transparent, lower, upper, random per query} x names with bytes >= 0x80 "
+              "{transparent, SERVFAIL, mangled to '?'} x answered record types (all, a single type, or a drawn subset of the 8) x "
+              "answer size limit {none, 512, 1232, 4096, drawn 300-8192; larger answers dropped} x EDNS0 stripped or not x tunnel "
+              "domain (4 shapes); then 1-3 payload sizes 1..5000 bytes (random and all-byte-values content) both ways. The 255 "
+              "record-type subsets are enumerated in thorough (11 in quick). The simulated path runs every message through real "
+              "Pack/Unpack and never sleeps. Oracle: Handshake() returns (no panic, < 20000 queries, < 60 s); if it returns nil "
+              "both codecs and fragment sizes are set and every payload arrives intact in both directions over the same path "
+              "within 30 s; if it returns an error that is accepted. non-trivial = any non-transparent behaviour"),
+        assumptions=["losses are modelled as the real communicator's time-out error; the path is deterministic per case (no random loss here: that is C07)"],
+        quick=dict(run=".", checks=120, timeout=900, shrinktime="10s"),
+        thorough=dict(run=".", checks=1200, timeout=3000, shards=8),
+        design_ref="DESIGN.md 2/C11",
+        level_text=("Generated path behaviours against the real negotiation code on both ends. A green run means the handshake always "
+                    "terminated, and whenever it reported success the negotiated record type, codecs and fragment sizes carried "
+                    "arbitrary data exactly in both directions over that same path."),
+        level_note="The path family is a model of resolver behaviour written for the harness; real resolvers are not involved.",
+    ),
     "C12": dict(
         inpkg="internal/streams/dns", src=["inpkg_dnssim", "inpkg_c12"],
         level="exploration",
